@@ -4,6 +4,7 @@ import (
 	"bytes"
 	"fmt"
 	"io"
+	"sync"
 	"time"
 
 	"seehuhn.de/go/pdf"
@@ -187,9 +188,25 @@ func replayBomb(input string) (bool, string) {
 	return ok, fmt.Sprintf("%d rows decoded; %s", nrows, detail)
 }
 
+type fbBombJob struct {
+	cols, k     int
+	rows        int64
+	eob         int
+	eol, black  bool
+	want        int
+	in          string
+	size, avail int
+	body        []byte
+	ok          bool
+	nrows       int
+	detail      string
+	dict        pdf.Dict
+}
+
 func runFBBombs(c *Ctx) {
 	r := c.R.Fork()
 	t0 := time.Now()
+	var jobs []*fbBombJob
 	combo := r.Intn(2)
 	for _, cols := range []int{1, 8, 1728, 65536, 1 << 20} {
 		for _, k := range []int{-1, 0, 1} {
@@ -219,51 +236,71 @@ func runFBBombs(c *Ctx) {
 						}
 						black := vi%2 == 0
 						eol := k >= 0 && (vi/2)%2 == 0
-						// rows wanted: beyond the effective cap
 						want := capRows + 64
 						if rows == 3 {
 							want = 64
 						}
-						size := 4096
-						body, avail := fbBombBody(cols, k, eol, black, size)
-						for body != nil && avail < want && size < 4<<20 {
-							size *= 4
-							body, avail = fbBombBody(cols, k, eol, black, size)
-						}
-						if body == nil {
-							c.Stat("bomb_no_body")
-							continue
-						}
-						ok, nrows, detail, dict := fbBombOnce(cols, k, rows, eob, eol, black, body)
-						in := fmt.Sprintf("%d %d %d %d %s %s %d", cols, k, rows, eob, fbB(eol), fbB(black), size)
-						c.Case("bomb:"+in, true)
-						c.Stat(fmt.Sprintf("bomb_cols_%d", cols))
-						if !ok {
-							key := "unbounded-output"
-							if len(detail) > 5 && (detail[:5] == "panic" || detail[:5] == "other") {
-								key = "non-malformed-error"
-								if detail[:5] == "panic" {
-									key = "panic"
-								}
-							}
-							c.Violate("fb-bomb", key, detail, in)
-							continue
-						}
-						// effective MaxRows: when the body holds more rows than the cap and the budget
-						// admits the buffers, exactly MaxRows rows come out; the model computes the clamp
-						f, _ := pdf.MakeFilter("CCITTFaxDecode", dict["DecodeParms"].(pdf.Dict))
-						ff := f.(pdf.FilterCCITTFax)
-						if avail >= want && detail == "data" {
-							flags := fbCC{eol: ff.EndOfLine, ignEOB: ff.IgnoreEndOfBlock}.flags()
-							c.Emit(fmt.Sprintf("FB cmaxrows %d %d %d %s %d", ff.Columns, ff.K, ff.Rows, flags, len(body)), fmt.Sprint(nrows))
-							c.Stat("bomb_clamp_binding")
-						} else {
-							c.Stat("bomb_" + detail)
-						}
+						jobs = append(jobs, &fbBombJob{cols: cols, k: k, rows: rows, eob: eob, eol: eol, black: black, want: want})
 						_ = lb
 					}
 				}
 			}
+		}
+	}
+	// the decodes are independent: four workers, results handled in generation order
+	var wg sync.WaitGroup
+	ch := make(chan *fbBombJob)
+	for w := 0; w < 4; w++ {
+		wg.Add(1)
+		go func() {
+			defer wg.Done()
+			for j := range ch {
+				j.size = 4096
+				j.body, j.avail = fbBombBody(j.cols, j.k, j.eol, j.black, j.size)
+				for j.body != nil && j.avail < j.want && j.size < 4<<20 {
+					j.size *= 4
+					j.body, j.avail = fbBombBody(j.cols, j.k, j.eol, j.black, j.size)
+				}
+				j.in = fmt.Sprintf("%d %d %d %d %s %s %d", j.cols, j.k, j.rows, j.eob, fbB(j.eol), fbB(j.black), j.size)
+				if j.body != nil {
+					j.ok, j.nrows, j.detail, j.dict = fbBombOnce(j.cols, j.k, j.rows, j.eob, j.eol, j.black, j.body)
+				}
+			}
+		}()
+	}
+	for _, j := range jobs {
+		ch <- j
+	}
+	close(ch)
+	wg.Wait()
+	for _, j := range jobs {
+		if j.body == nil {
+			c.Stat("bomb_no_body")
+			continue
+		}
+		c.Case("bomb:"+j.in, true)
+		c.Stat(fmt.Sprintf("bomb_cols_%d", j.cols))
+		if !j.ok {
+			key := "unbounded-output"
+			if len(j.detail) > 5 && (j.detail[:5] == "panic" || j.detail[:5] == "other") {
+				key = "non-malformed-error"
+				if j.detail[:5] == "panic" {
+					key = "panic"
+				}
+			}
+			c.Violate("fb-bomb", key, j.detail, j.in)
+			continue
+		}
+		// effective MaxRows: when the body holds more rows than the cap and the budget admits the
+		// buffers, exactly MaxRows rows come out; the model computes the clamp
+		f, _ := pdf.MakeFilter("CCITTFaxDecode", j.dict["DecodeParms"].(pdf.Dict))
+		ff := f.(pdf.FilterCCITTFax)
+		if j.avail >= j.want && j.detail == "data" {
+			flags := fbCC{eol: ff.EndOfLine, ignEOB: ff.IgnoreEndOfBlock}.flags()
+			c.Emit(fmt.Sprintf("FB cmaxrows %d %d %d %s %d", ff.Columns, ff.K, ff.Rows, flags, len(j.body)), fmt.Sprint(j.nrows))
+			c.Stat("bomb_clamp_binding")
+		} else {
+			c.Stat("bomb_" + j.detail)
 		}
 	}
 	c.StatN("bomb_ms", int(time.Since(t0).Milliseconds()))
